@@ -9,6 +9,8 @@ import (
 	"fmt"
 	"io"
 	"net"
+	"os"
+	"path/filepath"
 	"strings"
 	"sync"
 	"sync/atomic"
@@ -598,6 +600,53 @@ func c12IDs(w *core.W, j int) {
 		}
 		if !foreign && (err != nil || rep == nil || rep.Id != q.Id) {
 			w.Violation("C12/stream-own-reply-rejected", fmt.Sprintf("err=%v", err), nil)
+		}
+	}
+	// a unix-domain stream socket is a stream too, although *net.UnixConn also has the methods of a
+	// packet connection: framed messages, and a foreign ID is an ID error - it is not skipped
+	if j%10 == 3 {
+		dir, derr := os.MkdirTemp("", "c12u")
+		if derr == nil {
+			defer os.RemoveAll(dir)
+			sock := filepath.Join(dir, "s")
+			if ln, lerr := net.Listen("unix", sock); lerr == nil {
+				defer ln.Close()
+				for _, foreign := range []bool{true, false} {
+					id := q.Id
+					if foreign {
+						id = q.Id ^ uint16(1+r.IntN(65535))
+					}
+					go func() {
+						sc, err := ln.Accept()
+						if err != nil {
+							return
+						}
+						defer sc.Close()
+						var l [2]byte
+						if _, err := io.ReadFull(sc, l[:]); err != nil {
+							return
+						}
+						io.ReadFull(sc, make([]byte, binary.BigEndian.Uint16(l[:])))
+						sc.Write(frame(mk(id, "unix")))
+						sc.Write(frame(mk(q.Id, "unix-late"))) // what a skipping client would settle for
+						time.Sleep(400 * time.Millisecond)
+					}()
+					uc, uerr := net.Dial("unix", sock)
+					if uerr != nil {
+						break
+					}
+					w.Eval(1)
+					w.Count("unix_stream_exchanges", 1)
+					rep, _, err := c.ExchangeWithConn(q, &dns.Conn{Conn: uc})
+					uc.Close()
+					if foreign && !errors.Is(err, dns.ErrId) {
+						w.Violation("C12/stream-foreign-id-accepted/unix", fmt.Sprintf("reply with id %d for request %d over a unix stream socket: err=%v reply=%v", id, q.Id, err, rep != nil), nil)
+					}
+					if !foreign && (err != nil || rep == nil || rep.Id != q.Id) {
+						w.Violation("C12/stream-own-reply-rejected/unix", fmt.Sprintf("err=%v", err), nil)
+					}
+				}
+			}
 		}
 	}
 	// a zone transfer is a client exchange over a stream as well: a foreign ID in any envelope
